@@ -308,6 +308,7 @@ type VC struct {
 	dryExits []*State
 	pure     int
 	quiet    int
+	usedAnchors map[string]bool
 }
 
 func (vc *VC) declare(name, sort string) {
